@@ -191,6 +191,12 @@ HYPOTHESES = {
     "(derivative._qderiv_actuator_passive_vel handles AFFINE and DCMOTOR gains only; MuJoCo's mjd_actuator_vel includes "
     "d(muscle gain)/d(velocity) * activation)",
   ),
+  "fluid_deriv_passive_disabled": (
+    "implicit:fluid_vel_derivative_with_passive_forces_disabled",
+    "the velocity derivative of the fluid forces is still included although the SPRING and DAMPER disable flags are both "
+    "set, which switches all passive forces (fluid included, qfrc_fluid == 0) off (derivative.deriv_smooth_vel tests only "
+    "m.has_fluid; MuJoCo's mjd_passive_vel returns early and qDeriv has no fluid term)",
+  ),
 }
 
 
@@ -258,6 +264,22 @@ def implicit_hypothesis(mjm, st, which):
       eps = 1e-6 * max(1.0, abs(vl))
       dgain = (mujoco.mju_muscleGain(ln, vl + eps, lr, a0, gp) - mujoco.mju_muscleGain(ln, vl - eps, lr, a0, gp)) / (2 * eps)
       Dalt -= dgain * ctrl_act * np.outer(mom[i], mom[i]) * pattern  # MJWarp has no muscle term: remove MuJoCo's
+  elif which == "fluid_deriv_passive_disabled":
+    both = int(mujoco.mjtDisableBit.mjDSBL_SPRING) | int(mujoco.mjtDisableBit.mjDSBL_DAMPER)
+    if (int(mjm.opt.disableflags) & both) != both or (mjm.opt.density == 0 and mjm.opt.viscosity == 0):
+      return None
+    # the same model with passive forces on but every damper zero: its qDeriv = (actuator + RNE terms) + fluid term
+    m2 = copy.copy(mjm)
+    m2.opt.disableflags = int(mjm.opt.disableflags) & ~both
+    m2.dof_damping[:] = 0
+    m2.tendon_damping[:] = 0
+    for name in ("dof_dampingpoly", "tendon_dampingpoly"):
+      if hasattr(m2, name):
+        getattr(m2, name)[:] = 0
+    d2 = mujoco.MjData(m2)
+    mw.apply_state_mj(m2, d2, st)
+    mujoco.mj_step(m2, d2)
+    Dalt = _dense_D(m2, d2.qDeriv)
   else:
     raise KeyError(which)
   if np.abs(Dalt - D).max(initial=0) <= 1e-12 * max(1.0, np.abs(D).max(initial=0)):
